@@ -361,15 +361,22 @@ def f_treeamend():
 
 # -- more families for the history checks (C01, C04, C06, C07) -------------------------------------
 
-def f_glob(present=("a", "b"), mode="tree", subs="none"):
+def f_glob(present=("a", "b"), mode="tree", subs="none", cfg=0):
     """One step per file matching data/${*n}.txt; the matches are static by tree or by pattern.
     subs="ab" restricts the named wildcard to [ab]: data/zz.txt then matches the default pattern
-    of the wildcard but not the glob."""
+    of the wildcard but not the glob. cfg=1: the globbing is done by a sub-plan g.py that also
+    has a static input cfg.txt (so it can be pending for a reason of its own)."""
     files = {f"data/{n}.txt": f"data {n}\n" for n in present}
     files["data/"] = ""
     body = [tr("G", ["data/{n}.txt"], ["out/{n}.out"])]
     decl = ["static", "data/"] if mode == "tree" else ["static", "data/*.txt"]
-    files["plan.py"] = script([decl, ["glob", "data/${*n}.txt", {} if subs == "none" else {"n": "[ab]"}, body]])
+    globbing = ["glob", "data/${*n}.txt", {} if subs == "none" else {"n": "[ab]"}, body]
+    if cfg:
+        files["cfg.txt"] = "cfg\n"
+        files["g.py"] = script([["read", "cfg.txt"], globbing])
+        files["plan.py"] = script([decl, ["static", "cfg.txt", "g.py"], ["plan", "./g.py", {"inp": ["cfg.txt"]}]])
+    else:
+        files["plan.py"] = script([decl, globbing])
     return files
 
 
